@@ -29,6 +29,27 @@ pub fn run(ctx: &Ctx) -> Report {
             cases.push(Case::new("attr", v).text(&[k.name(), &format!("{t:x}")]));
         }
     }
+    // values obtained by decoding: every decode-side value of the small kinds, and for ERROR-CODE every class
+    // byte x number byte (the decoder accepts reserved bits) x three reasons
+    for k in attrs::ALL_KINDS {
+        if k == Kind::ErrorCode {
+            continue;
+        }
+        for v in values::decode_values(k, Tier::Quick).into_iter().filter(|v| v.len() <= 40).step_by(ctx.tier.pick(3, 1)) {
+            cases.push(Case::new("parsed", v).text(&[k.name()]));
+        }
+    }
+    for class in 0..=255u8 {
+        for number in (0..=255u8).step_by(ctx.tier.pick(5, 1)) {
+            for reason in [&b""[..], b"r", b"reason phrase"] {
+                for hi in [[0u8, 0], [0xFF, 0xFF], [0, 0x80]] {
+                    let mut v = vec![hi[0], hi[1], class, number];
+                    v.extend_from_slice(reason);
+                    cases.push(Case::new("parsed", v).text(&["ERROR-CODE"]));
+                }
+            }
+        }
+    }
     for len in 0..=763usize {
         let v: Vec<u8> = (0..len).map(|i| (i * 3 + 1) as u8).collect();
         cases.push(Case::new("raw", v.clone()).args(&[0xFF00]));
@@ -107,7 +128,7 @@ pub fn run(ctx: &Ctx) -> Report {
     Report {
         acc,
         exhaustive: true,
-        rule: "every encode-side value and every representable byte-lane-walk value of all 19 attribute types and raw attributes of every length 0..=763, each written into destinations of every size 0..=padded+16 (and its header alone through write_header / write_header_unchecked into destinations of 0..=8 bytes) (encodings above 96 bytes: every size in 0..=40 and within 40 bytes of the needed size, every 61st in between); builders of the C03 family (+ application attributes of 0..=1100, ~4096 and 65 000 bytes, + an application attribute whose value changes after add_attribute, + a sibling clone kept and serialised, + interleaved into_owned/clone; + the builder measured and serialised after every operation / at each single position), each written into destinations of every size 0..=len+16; distinct_nontrivial = value/builder cases that could be constructed".into(),
+        rule: "typed values obtained by decoding (every short decode-side value of every kind; ERROR-CODE with every class byte x number byte x reserved bytes) serialised again through every path; every encode-side value and every representable byte-lane-walk value of all 19 attribute types and raw attributes of every length 0..=763, each written into destinations of every size 0..=padded+16 (and its header alone through write_header / write_header_unchecked into destinations of 0..=8 bytes) (encodings above 96 bytes: every size in 0..=40 and within 40 bytes of the needed size, every 61st in between); builders of the C03 family (+ application attributes of 0..=1100, ~4096 and 65 000 bytes, + an application attribute whose value changes after add_attribute, + a sibling clone kept and serialised, + interleaved into_owned/clone; + the builder measured and serialised after every operation / at each single position), each written into destinations of every size 0..=len+16; distinct_nontrivial = value/builder cases that could be constructed".into(),
         bounds: json!({"attribute_value_cases": n_attr, "builder_cases": n_all - n_attr, "dest_sizes": "0..=needed+16"}),
         assumptions: vec![],
         ..Default::default()
@@ -251,6 +272,28 @@ pub fn judge(case: &Case, acc: &mut Acc) {
             acc.outcome("attr: all destination sizes");
             let want = wire::encode_attr(k.code(), &attrs::encode(k, &val), 0);
             attr_paths(acc, case, typed.as_write(), &want, k.name());
+        }
+        "parsed" => {
+            // a typed value obtained by decoding wire bytes (possibly a non-canonical encoding the decoder
+            // accepts: reserved bits set, ...) and serialised again: every path gives the same bytes - those of
+            // to_raw() - with the padded length, the value length declared and zero padding
+            let k = Kind::from_name(&case.text[0]).unwrap();
+            let r = RawAttribute::new(AttributeType::new(k.code()), &case.data);
+            let Ok(typed) = real::from_raw_typed(k, &r) else {
+                acc.evaluations += 1;
+                acc.outcome("parsed: refused by the decoder");
+                return;
+            };
+            let w = typed.as_write();
+            let want = w.to_raw().to_bytes();
+            let vlen = w.to_raw().value.len();
+            if want.len() != 4 + (vlen + 3) / 4 * 4 || want[2..4] != (vlen as u16).to_be_bytes() || want[4 + vlen..].iter().any(|b| *b != 0) {
+                viol!(acc, P, &format!("parsed-value-layout/{}", k.name()), case, "to_raw().to_bytes() of a decoded value is not type | value length | value | zero padding", "well-formed attribute", fmt_bytes(&want));
+                return;
+            }
+            acc.nontrivial += 1;
+            acc.outcome("parsed value: all destination sizes");
+            attr_paths(acc, case, w, &want, k.name());
         }
         "raw" => {
             let t = case.args[0] as u16;
